@@ -117,7 +117,9 @@ where
                 SockRecv(Result<usize, std::io::Error>),
             }
 
-            let mut buf = [0; SOCK_SAMPLE_SIZE];
+            // One byte more than a sample, so that oversized datagrams are seen as such
+            // instead of being silently truncated to a valid-looking sample.
+            let mut buf = [0; SOCK_SAMPLE_SIZE + 1];
 
             let selected: SelectResult = tokio::select! {
                 result = self.socket.recv(&mut buf) => {
@@ -126,7 +128,12 @@ where
             };
 
             match selected {
-                SelectResult::SockRecv(result) => match deserialize_sample(result, buf) {
+                SelectResult::SockRecv(result) => match deserialize_sample(
+                    result,
+                    buf[..SOCK_SAMPLE_SIZE]
+                        .try_into()
+                        .expect("slice has exactly the sample size"),
+                ) {
                     Ok(sample) => {
                         debug!("received {:?}", sample);
                         let leap = match sample.leap {
